@@ -116,6 +116,8 @@ def file_kind(target: str, rel: str) -> str:
             return "tests/" + p.name
         if "types" in p.parts:
             return "types/*.java"
+        if "generation" in p.parts:
+            return "generation/*.java"
         return p.name
     if "test" in p.parts[:-1] or "tests" in p.parts[:-1] or p.name.endswith("_test.go") or ".Tests" in rel:
         return "tests/" + p.name
@@ -131,7 +133,8 @@ def normalize_code_line(line: str) -> str:
     line = re.sub(r'"(?:[^"\\]|\\.)*"', '""', line.strip())
     line = re.sub(r"[A-Za-z_][A-Za-z0-9_]*", lambda m: m.group(0) if m.group(0) in _KEEP_WORDS else "x", line)
     line = re.sub(r"\d+(\.\d+)?", "0", line)
-    return re.sub(r"\s+", " ", line)[:48]
+    line = re.sub(r"\s+", " ", line)
+    return line.split(" = ")[0][:48]  # the initialiser varies with the model
 
 
 def check_target_output(target: str, root: pathlib.Path, cpp_level: int, scratch: pathlib.Path,
@@ -251,23 +254,26 @@ def refine_cause(target: str, root: pathlib.Path, diag: Diag) -> Optional[str]:
         return "backslash-u-in-doc-comment" if (st_.startswith("*") or st_.startswith("/*") or st_.startswith("//")) \
             else "backslash-u-outside-comment"
     if target in ("java", "typescript") and diag.line > 0:
-        # the last documentation comment opened at or before the reported line: was it closed by a "*/" that is
-        # followed by more comment-looking text?
-        hi = min(len(lines), diag.line)
-        start = None
-        for idx in range(hi - 1, max(-1, hi - 80), -1):
+        # any documentation comment opened before the reported line that is closed by a "*/" which is followed by
+        # more comment-looking text (the parser may stumble only much later)
+        # (the TypeScript parser reports some of these at the start of the enclosing declaration: whole file)
+        hi = len(lines) if target == "typescript" else min(len(lines), diag.line + 2)
+        idx = 0
+        while idx < hi:
             if lines[idx].lstrip().startswith("/**"):
-                start = idx
-                break
-        if start is not None:
-            for idx in range(start, min(len(lines), start + 80)):
-                pos = lines[idx].find("*/")
-                if pos >= 0:
-                    rest = lines[idx][pos + 2:].strip()
-                    nxt = next((ln.strip() for ln in lines[idx + 1:idx + 3] if ln.strip()), "")
-                    if rest != "" or nxt.startswith("*"):
-                        return "comment-close-in-doc-comment"
-                    break
+                j = idx
+                while j < len(lines):
+                    pos = lines[j].find("*/", 3 if j == idx else 0)
+                    if pos >= 0:
+                        rest = lines[j][pos + 2:].strip()
+                        nxt = next((ln.strip() for ln in lines[j + 1:j + 3] if ln.strip()), "")
+                        if rest != "" or nxt.startswith("*"):
+                            return "comment-close-in-doc-comment"
+                        break
+                    j += 1
+                idx = j + 1
+            else:
+                idx += 1
     return None
 
 
